@@ -348,7 +348,9 @@ theorem diffuser_reflection (n m : Nat) (ψ : Wave) (z mid : List Bool) (b : Boo
         + (-2) * (if y = List.replicate n true then kron xhM z y * φB (y ++ mid ++ [true]) else 0))
       (fun y hy => by
         rw [hC y true hy]
-        by_cases h1 : y = List.replicate n true <;> simp [h1] <;> ring)]
+        by_cases h1 : y = List.replicate n true
+        · simp [h1]; ring
+        · simp [h1])]
     rw [sumBits_add, sumBits_smul,
       sumBits_single n (List.replicate n true) (fun y => kron xhM z y * φB (y ++ mid ++ [true])) hones,
       kron_xhM_ones, hS _ hones]
@@ -360,5 +362,474 @@ theorem diffuser_reflection (n m : Nat) (ψ : Wave) (z mid : List Bool) (b : Boo
     ring
   rw [e0, e1, pow_succ]
   cases b <;> simp [sgn] <;> ring
+
+/-! ## 4. The oracle: a clean xor-oracle permutes the clean basis states -/
+
+theorem applyWave_classical (g : AGate) (h : (g.cls.isMCXLike || g.cls.isNop) = true) (ψ : Wave) :
+    applyWave g ψ = Amp.applyGate g ψ := by
+  unfold applyWave Amp.applyGate
+  by_cases hm : g.cls.isMCXLike = true
+  · simp [hm]
+  · cases hc : g.cls <;> simp_all [GClass.isNop, GClass.isMCXLike, isZLike]
+
+/-- on classical gate lists the amplitude semantics of `Model/Grover.lean` and of `Model/Amp.lean`
+(C16) are the same function -/
+theorem runWave_classical : ∀ (gs : List AGate), allClassical gs = true → ∀ ψ : Wave,
+    runWave gs ψ = Amp.run gs ψ
+  | [], _, ψ => rfl
+  | g :: gs, h, ψ => by
+    simp only [allClassical, List.all_cons, Bool.and_eq_true] at h
+    rw [runWave_cons, Amp.run_cons, applyWave_classical g h.1, runWave_classical gs h.2]
+
+theorem wf_of_classical (og : List AGate) (h1 : allClassical og = true)
+    (h2 : ∀ g ∈ og, g.wires.Nodup) : Amp.wfOracle og = true := by
+  simp only [Amp.wfOracle, List.all_eq_true]
+  intro g hg
+  have h := (List.all_eq_true.mp h1) g hg
+  simp only [Bool.or_eq_true] at h
+  simp only [Amp.wfGate, Bool.or_eq_true, Bool.and_eq_true, decide_eq_true_eq]
+  rcases h with h | h
+  · exact Or.inl ⟨h, h2 g hg⟩
+  · exact Or.inr h
+
+theorem flip_append_left (s t : BState) (i : Nat) (h : i < s.length) :
+    BState.flip (s ++ t) i = BState.flip s i ++ t := by
+  apply List.ext_getElem?
+  intro j
+  simp only [BState.flip, List.getElem?_modify]
+  by_cases hj : j < s.length
+  · rw [List.getElem?_append_left hj, List.getElem?_append_left (by simpa using hj),
+      List.getElem?_modify]
+  · have hj' : s.length ≤ j := by omega
+    rw [List.getElem?_append_right hj', List.getElem?_append_right (by simpa using hj')]
+    have : ¬ i = j := by omega
+    simp [this]
+
+theorem applyClassical_append (g : AGate) (s t : BState) (hw : ∀ w ∈ g.wires, w < s.length) :
+    g.applyClassical (s ++ t) = g.applyClassical s ++ t := by
+  unfold AGate.applyClassical
+  cases hl : g.wires.getLast? with
+  | none => rfl
+  | some tg =>
+    have htg : tg < s.length := hw tg (List.mem_of_getLast? hl)
+    have hall : (g.wires.dropLast.all fun c => (s ++ t).getD c false)
+        = g.wires.dropLast.all fun c => s.getD c false := by
+      rw [Bool.eq_iff_iff]
+      simp only [List.all_eq_true]
+      have hc : ∀ c ∈ g.wires.dropLast, (s ++ t).getD c false = s.getD c false := by
+        intro c hc
+        have := hw c (List.dropLast_subset _ hc)
+        simp [List.getD_eq_getElem?_getD, List.getElem?_append_left this]
+      constructor
+      · intro H c hcm; rw [← hc c hcm]; exact H c hcm
+      · intro H c hcm; rw [hc c hcm]; exact H c hcm
+    simp only [hall]
+    split
+    · exact flip_append_left s t tg htg
+    · rfl
+
+theorem runClassical_append : ∀ (gs : List AGate) (s t : BState),
+    (∀ g ∈ gs, ∀ w ∈ g.wires, w < s.length) →
+    runClassical gs (s ++ t) = runClassical gs s ++ t
+  | [], _, _, _ => rfl
+  | g :: gs, s, t, hw => by
+    have hg := hw g (by simp)
+    have hgs : ∀ g' ∈ gs, ∀ w ∈ g'.wires, w < s.length := fun g' h => hw g' (by simp [h])
+    simp only [runClassical, List.foldl_cons]
+    by_cases hm : g.cls.isMCXLike = true
+    · simp only [hm, if_true]
+      rw [applyClassical_append g s t hg]
+      exact runClassical_append gs _ t (by rw [Amp.applyClassical_length]; exact hgs)
+    · simp only [hm]
+      exact runClassical_append gs s t hgs
+
+theorem oracleState_eq (n nq ret : Nat) (x : BState) (r : Bool) (hx : x.length = n)
+    (h1 : n ≤ ret) : oracleState nq ret x r = x ++ Amp.embed (nq - n) (ret - n) r := by
+  unfold oracleState Amp.embed Amp.zeros
+  rw [List.set_append, if_neg (by omega), hx]
+
+/-- what the proofs use of a clean xor-oracle: search register `x` (qubits `0..n-1`), `m` oracle
+qubits of which number `k` is `_ret` and the others are scratch, then the phase qubit -/
+structure OracleSpec (og : List AGate) (n m k : Nat) (f : BState → Bool) : Prop where
+  wf : Amp.wfOracle og = true
+  cl : allClassical og = true
+  km : k < m
+  act : ∀ (x : BState) (r pb : Bool), x.length = n →
+    runClassical og (x ++ Amp.embed m k r ++ [pb]) = x ++ Amp.embed m k (xor r (f x)) ++ [pb]
+
+theorem oracleSpec_of_clean (n nq ret : Nat) (og : List AGate) (f : BState → Bool)
+    (h : CleanXorOracle n nq ret og f) : OracleSpec og n (nq - n) (ret - n) f := by
+  obtain ⟨h1, h2, h3, h4, h5, h6⟩ := h
+  refine ⟨wf_of_classical og h3 h5, h3, by omega, ?_⟩
+  intro x r pb hx
+  rw [runClassical_append og _ [pb] (by
+    intro g hg w hw'
+    have := h4 g hg w hw'
+    simp [hx, Amp.embed_length]; omega)]
+  have := h6 x hx r
+  rw [oracleState_eq n nq ret x r hx h1, oracleState_eq n nq ret x _ hx h1] at this
+  rw [this]
+
+/-! ## 5. Class-uniform states and the three steps of one iteration -/
+
+/-- amplitude (numerator) at `_ret = r`, phase qubit `= pb` of a class with sector numerators
+`A` (phase qubit written in the basis |±⟩) -/
+def ampOf (A : Amp) (r pb : Bool) : Int :=
+  (if r then A.op else A.zp) + sgn pb * (if r then A.om else A.zm)
+
+def classOf (f : BState → Bool) (R : RState) (x : BState) : Amp := if f x then R.sol else R.non
+
+/-- `ψ` is supported on clean basis states (scratch qubits 0) and there equals `c ·` the
+reduced state `R`: uniform on solutions and on non-solutions in each (`_ret`, ±) sector -/
+def ClassUniform (n m k : Nat) (f : BState → Bool) (c : Int) (R : RState) (ψ : Wave) : Prop :=
+  ∀ (x mid : List Bool) (pb : Bool), x.length = n → mid.length = m →
+    ψ (x ++ mid ++ [pb]) =
+      if allFalse (mid.set k false) then c * ampOf (classOf f R x) (mid.getD k false) pb else 0
+
+theorem split3 (n m : Nat) (t : List Bool) (h : t.length = n + m + 1) :
+    ∃ (x mid : List Bool) (pb : Bool), t = x ++ mid ++ [pb] ∧ x.length = n ∧ mid.length = m := by
+  have hne : t.drop n ≠ [] := by
+    intro e
+    have := congrArg List.length e
+    simp at this; omega
+  refine ⟨t.take n, (t.drop n).dropLast, (t.drop n).getLast hne, ?_, by simp; omega, by simp; omega⟩
+  rw [List.append_assoc, List.dropLast_concat_getLast, List.take_append_drop]
+
+/-- **Oracle step**: the compiled oracle swaps the `_ret = 0/1` sectors on solutions only -/
+theorem oracle_step (og : List AGate) (n m k : Nat) (f : BState → Bool) (c : Int) (R : RState)
+    (ψ : Wave) (hO : OracleSpec og n m k f) (hψ : ClassUniform n m k f c R ψ) :
+    ClassUniform n m k f c (oracleStep R) (runWave og ψ) := by
+  intro x mid pb hx hmid
+  rw [runWave_classical og hO.cl, Amp.run_oracle og hO.wf]
+  have hamp : ∀ r : Bool, ampOf (classOf f (oracleStep R) x) r pb
+      = ampOf (classOf f R x) (xor r (f x)) pb := by
+    intro r
+    unfold classOf oracleStep ampOf
+    cases f x <;> cases r <;> simp
+  by_cases hA : allFalse (mid.set k false) = true
+  · simp only [hA, if_true]
+    have hrest := Amp.rest_eq_embed mid m k hmid hO.km hA
+    generalize mid.getD k false = r at hrest
+    have h1 := hO.act x (xor r (f x)) pb hx
+    have h2 : xor (xor r (f x)) (f x) = r := by cases r <;> cases f x <;> rfl
+    rw [h2, ← hrest] at h1
+    rw [← h1, Amp.back_fwd og hO.wf, hψ x _ pb hx (Amp.embed_length m k _), Amp.embed_set_false,
+      Amp.allFalse_zeros, Amp.embed_getD m k _ hO.km, hamp]
+    simp
+  · simp only [hA]
+    have hlen : (Amp.back og (x ++ mid ++ [pb])).length = n + m + 1 := by
+      simp [Amp.back_length, hx, hmid, Nat.add_assoc]
+    obtain ⟨x', mid', pb', hb, hx', hm'⟩ := split3 n m _ hlen
+    rw [hb, hψ x' mid' pb' hx' hm']
+    by_cases hB : allFalse (mid'.set k false) = true
+    · exfalso
+      have hrest' := Amp.rest_eq_embed mid' m k hm' hO.km hB
+      have h1 := hO.act x' (mid'.getD k false) pb' hx'
+      rw [← hrest', ← hb, Amp.fwd_back og hO.wf] at h1
+      have h3 := List.append_inj (List.append_inj h1 (by simp [hx, hmid, hx', Amp.embed_length])).1
+        (by rw [hx, hx'])
+      apply hA
+      rw [h3.2, Amp.embed_set_false, Amp.allFalse_zeros]
+    · simp [hB]
+
+theorem getD_mid (x mid : List Bool) (pb : Bool) (k : Nat) (hk : k < mid.length) :
+    (x ++ mid ++ [pb]).getD (x.length + k) false = mid.getD k false := by
+  rw [List.append_assoc, Amp.getD_append_right']
+  simp [List.getD_eq_getElem?_getD, List.getElem?_append_left hk]
+
+/-- **Kick-back step**: `MCtrl(Z)` from `_ret` (qubit `n + k`) onto the phase qubit (`n + m`)
+swaps |+⟩ and |−⟩ where `_ret = 1` -/
+theorem phase_step (n m k : Nat) (f : BState → Bool) (c : Int) (R : RState) (ψ : Wave)
+    (hk : k < m) (hψ : ClassUniform n m k f c R ψ) :
+    ClassUniform n m k f c (phaseStep R) (applyWave (gMCZ [n + k] (n + m)) ψ) := by
+  intro x mid pb hx hmid
+  rw [applyWave_gMCZ]
+  have hcond : (([n + k] ++ [n + m]).all fun c => (x ++ mid ++ [pb]).getD c false)
+      = (mid.getD k false && pb) := by
+    simp only [List.cons_append, List.nil_append, List.all_cons, List.all_nil, Bool.and_true]
+    rw [← hx, getD_mid x mid pb k (by omega)]
+    have : x.length + m = (x ++ mid).length := by simp [hmid]
+    rw [this, getD_last]
+  rw [hcond, hψ x mid pb hx hmid]
+  by_cases hA : allFalse (mid.set k false) = true
+  · simp only [hA, if_true]
+    unfold classOf phaseStep ampOf
+    cases f x <;> cases mid.getD k false <;> cases pb <;>
+      simp only [sgn, Bool.and_self, Bool.and_true, Bool.and_false, Bool.false_eq_true,
+        ↓reduceIte] <;> ring
+  · simp [hA]
+
+theorem sumBits_ite (n : Nat) : ∀ (f : List Bool → Bool) (a b : Int),
+    sumBits n (fun x => if f x then a else b)
+      = (countBits n f : Int) * a + (2 ^ n - (countBits n f : Int)) * b := by
+  induction n with
+  | zero => intro f a b; cases h : f [] <;> simp [sumBits, countBits, h]
+  | succ n ih =>
+    intro f a b
+    simp only [sumBits, countBits]
+    rw [ih, ih]
+    push_cast
+    ring
+
+/-- **Diffuser step** on class-uniform states: on the two `+` sectors subtract twice the mean -/
+theorem diffuse_step (n m k : Nat) (f : BState → Bool) (c : Int) (R : RState) (ψ : Wave)
+    (hψ : ClassUniform n m k f c R ψ) :
+    ClassUniform n m k f (2 * c) (diffuseStep (2 ^ n) (countBits n f) R)
+      (runWave (diffuser n (n + m)) ψ) := by
+  intro z mid pb hz hmid
+  rw [diffuser_reflection n m ψ z mid pb hz hmid, hψ z mid pb hz hmid]
+  by_cases hA : allFalse (mid.set k false) = true
+  · simp only [hA, if_true]
+    rw [sumBits_congr n _ (fun x => if f x
+          then 2 * c * (if mid.getD k false then R.sol.op else R.sol.zp)
+          else 2 * c * (if mid.getD k false then R.non.op else R.non.zp))
+      (fun x hx' => by
+        rw [hψ x mid false hx' hmid, hψ x mid true hx' hmid]
+        simp only [hA, if_true]
+        unfold classOf ampOf
+        cases f x <;> cases mid.getD k false <;>
+          simp only [sgn, Bool.false_eq_true, ↓reduceIte] <;> ring)]
+    rw [sumBits_ite]
+    unfold classOf diffuseStep ampOf
+    cases f z <;> cases mid.getD k false <;> cases pb <;>
+      simp only [sgn, Bool.false_eq_true, ↓reduceIte] <;> ring
+  · simp only [hA]
+    rw [sumBits_congr n _ (fun _ => 0) (fun x hx' => by
+      rw [hψ x mid false hx' hmid, hψ x mid true hx' hmid]; simp [hA]), sumBits_zero]
+    simp
+
+/-- one Grover iteration (`oracle_qc + diffuser_qc`) is one step of the reduced recurrence;
+the integer wave picks up the factor 2 (`2(n+1)` more `H` gates) -/
+theorem iteration_step (og : List AGate) (n m k : Nat) (f : BState → Bool) (c : Int) (R : RState)
+    (ψ : Wave) (hO : OracleSpec og n m k f) (hψ : ClassUniform n m k f c R ψ) :
+    ClassUniform n m k f (2 * c) (rstep (2 ^ n) (countBits n f) R)
+      (runWave (iteration n og (n + m) (n + k)) ψ) := by
+  unfold iteration oracleWithPhase rstep
+  rw [runWave_append, runWave_append, runWave_cons, runWave_nil]
+  exact diffuse_step n m k f c _ _ (phase_step n m k f c _ _ hO.km (oracle_step og n m k f c R ψ hO hψ))
+
+theorem class_uniform_iter (og : List AGate) (n m k : Nat) (f : BState → Bool)
+    (hO : OracleSpec og n m k f) : ∀ (j : Nat) (c : Int) (R : RState) (ψ : Wave),
+    ClassUniform n m k f c R ψ →
+    ClassUniform n m k f (2 ^ j * c) (riter (2 ^ n) (countBits n f) j R)
+      (runWave (repeatGates (iteration n og (n + m) (n + k)) j) ψ)
+  | 0, c, R, ψ, h => by simpa [riter, repeatGates, runWave_nil] using h
+  | j + 1, c, R, ψ, h => by
+    rw [repeatGates, runWave_append, riter]
+    have := class_uniform_iter og n m k f hO j (2 * c) _ _ (iteration_step og n m k f c R ψ hO h)
+    have e : (2 : Int) ^ (j + 1) * c = 2 ^ j * (2 * c) := by ring
+    rw [e]; exact this
+
+/-! ### the state after the two initial `H` layers -/
+
+theorem zeroWave_eq : zeroWave = Amp.ket0 := rfl
+
+theorem sum_zeroWave (n : Nat) : ∀ (y r : List Bool),
+    sumBits n (fun x => kron hM y x * zeroWave (x ++ r)) = zeroWave r := by
+  induction n with
+  | zero => intro y r; simp [sumBits, kron]
+  | succ n ih =>
+    intro y r
+    simp only [sumBits]
+    have h1 : ∀ t : List Bool, zeroWave (true :: t ++ r) = 0 := by intro t; simp [zeroWave]
+    have h0 : ∀ t : List Bool, zeroWave (false :: t ++ r) = zeroWave (t ++ r) := by
+      intro t; simp [zeroWave]
+    simp only [h1, h0, Int.mul_zero, sumBits_zero, Int.add_zero]
+    cases y with
+    | nil => simpa [kron] using ih [] r
+    | cons b y' => simpa [kron, hM, sgn] using ih y' r
+
+theorem allFalse_split : ∀ (mid : List Bool) (k : Nat), k < mid.length →
+    allFalse mid = (allFalse (mid.set k false) && !(mid.getD k false))
+  | [], _, h => by simp at h
+  | a :: t, 0, _ => by cases a <;> simp [allFalse]
+  | a :: t, k + 1, h => by
+    have := allFalse_split t k (by simpa using h)
+    simp only [allFalse] at this
+    simp only [allFalse, List.set_cons_succ, List.all_cons, List.getD_cons_succ, this]
+    cases a <;> simp
+
+theorem init_uniform (n m k : Nat) (f : BState → Bool) (hk : k < m) :
+    ClassUniform n m k f 1 RState.init (runWave (hLayer n ++ [gH (n + m)]) zeroWave) := by
+  intro x mid pb hx hmid
+  have hl : n + m = (x ++ mid).length := by simp [hx, hmid]
+  rw [runWave_append, runWave_cons, runWave_nil, run_hLayer, applyWave_gH, hl, set_last,
+    set_last, getD_last, List.append_assoc, List.append_assoc,
+    layerM_sum hM n _ x _ hx, layerM_sum hM n _ x _ hx, sum_zeroWave, sum_zeroWave]
+  have h1 : zeroWave (mid ++ [true]) = 0 := by simp [zeroWave]
+  have h0 : zeroWave (mid ++ [false]) = if allFalse mid then 1 else 0 := by
+    simp [zeroWave, allFalse]
+  rw [h1, h0, allFalse_split mid k (by omega)]
+  unfold classOf ampOf RState.init
+  cases allFalse (mid.set k false) <;> cases mid.getD k false <;> simp
+
+/-- **`class_uniform_invariant`**: for every `n`, every predicate `f`, every clean xor-oracle
+`og` of `f` and every number `j` of iterations, the state of the Grover gate list is supported
+on clean basis states and is `2^j ·` the reduced state `riter N M j init`, `M = #{x | f x}` –
+uniform on solutions and on non-solutions in each (`_ret`, ±) sector. -/
+theorem class_uniform_invariant (n nq ret : Nat) (og : List AGate) (f : BState → Bool)
+    (h : CleanXorOracle n nq ret og f) (j : Nat) :
+    ClassUniform n (nq - n) (ret - n) f (2 ^ j)
+      (riter (2 ^ n) (countBits n f) j RState.init)
+      (runWave (hLayer n ++ [gH nq] ++ repeatGates (iteration n og nq ret) j) zeroWave) := by
+  have hO := oracleSpec_of_clean n nq ret og f h
+  obtain ⟨h1, h2, -⟩ := h
+  obtain ⟨m, rfl⟩ : ∃ m, nq = n + m := ⟨nq - n, by omega⟩
+  obtain ⟨k, rfl⟩ : ∃ k, ret = n + k := ⟨ret - n, by omega⟩
+  simp only [Nat.add_sub_cancel_left] at hO ⊢
+  rw [runWave_append]
+  have := class_uniform_iter og n m k f hO j 1 _ _ (init_uniform n m k f hO.km)
+  simpa using this
+
+/-! ## 6. The measured distribution -/
+
+theorem sum_flatMap_pair (l : List BState) (F : BState → Int) :
+    ((l.flatMap fun s => [false :: s, true :: s]).map F).sum
+      = (l.map fun s => F (false :: s) + F (true :: s)).sum := by
+  induction l with
+  | nil => rfl
+  | cons a l ih =>
+    simp only [List.flatMap_cons, List.map_append, List.sum_append, List.map_cons, List.sum_cons,
+      List.map_nil, List.sum_nil, ih]
+    ring
+
+theorem allStates_sum (L : Nat) : ∀ F : BState → Int, ((allStates L).map F).sum = sumBits L F := by
+  induction L with
+  | zero => intro F; simp [allStates, sumBits]
+  | succ L ih =>
+    intro F
+    rw [allStates, sum_flatMap_pair, ih, sumBits_add]
+    rfl
+
+theorem filter_flatMap_pair (l : List BState) (f : BState → Bool) :
+    ((l.flatMap fun s => [false :: s, true :: s]).filter f).length
+      = (l.filter fun s => f (false :: s)).length + (l.filter fun s => f (true :: s)).length := by
+  induction l with
+  | nil => rfl
+  | cons a l ih =>
+    simp only [List.flatMap_cons, List.filter_append, List.length_append, ih, List.filter_cons]
+    cases f (false :: a) <;> cases f (true :: a) <;> simp <;> omega
+
+/-- the number of solutions, as counted in `C15_statement` and as counted by `countBits` -/
+theorem count_allStates (n : Nat) : ∀ f : BState → Bool,
+    ((allStates n).filter f).length = countBits n f := by
+  induction n with
+  | zero => intro f; cases h : f [] <;> simp [allStates, countBits, h]
+  | succ n ih =>
+    intro f
+    rw [allStates, filter_flatMap_pair, ih, ih]
+    rfl
+
+theorem sumBits_snoc (m : Nat) : ∀ F : List Bool → Int,
+    sumBits (m + 1) F = sumBits m (fun mid => F (mid ++ [false]) + F (mid ++ [true])) := by
+  induction m with
+  | zero => intro F; simp [sumBits]
+  | succ m ih =>
+    intro F
+    rw [sumBits, ih, ih, sumBits]
+    simp only [List.cons_append]
+
+theorem allFalse_cons_false (t : List Bool) : allFalse (false :: t) = allFalse t := rfl
+theorem allFalse_cons_true (t : List Bool) : allFalse (true :: t) = false := rfl
+
+theorem sum_allFalse (m : Nat) (v : Int) : sumBits m (fun t => if allFalse t then v else 0) = v := by
+  induction m with
+  | zero => simp [sumBits, allFalse]
+  | succ m ih =>
+    simp only [sumBits, allFalse_cons_false, allFalse_cons_true, Bool.false_eq_true, if_false,
+      sumBits_zero, Int.add_zero]
+    exact ih
+
+theorem sum_clean : ∀ (m k : Nat), k < m → ∀ G : Bool → Int,
+    sumBits m (fun mid => if allFalse (mid.set k false) then G (mid.getD k false) else 0)
+      = G false + G true
+  | 0, _, h, _ => by omega
+  | m + 1, 0, _, G => by
+    simp only [sumBits, List.set_cons_zero, List.getD_cons_zero, allFalse_cons_false]
+    rw [sum_allFalse, sum_allFalse]
+  | m + 1, k + 1, h, G => by
+    simp only [sumBits, List.set_cons_succ, List.getD_cons_succ, allFalse_cons_false,
+      allFalse_cons_true, Bool.false_eq_true, if_false, sumBits_zero, Int.add_zero]
+    exact sum_clean m k (by omega) G
+
+/-- probability numerator of reading `x` in a class-uniform state -/
+theorem prob_uniform (n m k : Nat) (f : BState → Bool) (c : Int) (R : RState) (ψ : Wave)
+    (hk : k < m) (hψ : ClassUniform n m k f c R ψ) (x : BState) (hx : x.length = n) :
+    sumBits (m + 1) (fun rest => ψ (x ++ rest) ^ 2) = 2 * c ^ 2 * (classOf f R x).sq := by
+  rw [sumBits_snoc]
+  have hG := sum_clean m k hk (fun r =>
+    (c * ampOf (classOf f R x) r false) ^ 2 + (c * ampOf (classOf f R x) r true) ^ 2)
+  refine (sumBits_congr m _ _ (fun mid hmid => ?_)).trans (hG.trans ?_)
+  · rw [← List.append_assoc, ← List.append_assoc, hψ x mid false hx hmid, hψ x mid true hx hmid]
+    by_cases hA : allFalse (mid.set k false) = true <;> simp [hA]
+  · unfold ampOf Amp.sq
+    simp only [sgn, Bool.false_eq_true, ↓reduceIte]
+    ring
+
+theorem hCount_append (a b : List AGate) : hCount (a ++ b) = hCount a + hCount b := by
+  simp [hCount, List.countP_append]
+
+theorem hCount_classical (og : List AGate) (h : allClassical og = true) : hCount og = 0 := by
+  simp only [hCount, List.countP_eq_zero]
+  intro g hg
+  have := (List.all_eq_true.mp h) g hg
+  cases hc : g.cls <;> simp_all [GClass.isMCXLike, GClass.isNop]
+
+theorem hCount_hLayer (n : Nat) : hCount (hLayer n) = n := by
+  induction n with
+  | zero => rfl
+  | succ n ih =>
+    simp only [hLayer, List.range_succ, List.map_append, List.map_cons, List.map_nil] at *
+    rw [hCount_append, ih]; rfl
+
+theorem hCount_hx (n : Nat) : hCount ((List.range n).flatMap fun i => [gH i, gX i]) = n := by
+  induction n with
+  | zero => rfl
+  | succ n ih =>
+    simp only [List.range_succ, List.flatMap_append, List.flatMap_cons, List.flatMap_nil,
+      List.append_nil] at *
+    rw [hCount_append, ih]; rfl
+
+theorem hCount_xh (n : Nat) : hCount ((List.range n).flatMap fun i => [gX i, gH i]) = n := by
+  induction n with
+  | zero => rfl
+  | succ n ih =>
+    simp only [List.range_succ, List.flatMap_append, List.flatMap_cons, List.flatMap_nil,
+      List.append_nil] at *
+    rw [hCount_append, ih]; rfl
+
+theorem hCount_repeat (l : List AGate) : ∀ c, hCount (repeatGates l c) = c * hCount l
+  | 0 => by simp [repeatGates, hCount]
+  | c + 1 => by rw [repeatGates, hCount_append, hCount_repeat l c]; ring
+
+/-- number of `H` gates of the algorithm circuit (the amplitudes are integers times `2^(-h/2)`) -/
+theorem hCount_grover (q : Quirks) (n : Nat) (og : List AGate) (nq ret k : Nat)
+    (hcl : allClassical og = true) (hk : 1 ≤ k) :
+    hCount (groverGates q n og nq ret k) = n + 1 + k * (2 * n + 2) := by
+  have hc : repeatCopies q k = k := by unfold repeatCopies; rw [if_neg (by omega)]
+  have hit : hCount (iteration n og nq ret) = 2 * n + 2 := by
+    unfold iteration oracleWithPhase diffuser
+    simp only [hCount_append, hCount_classical og hcl, hCount_hx, hCount_xh]
+    simp [hCount, gMCZ, gH, gX]
+    omega
+  unfold groverGates
+  rw [hCount_append, hCount_append, hCount_hLayer, hCount_repeat, hit, hc]
+  rfl
+
+/-- **The distribution of the Grover circuit.**  For every `n`, every predicate `f`, every clean
+xor-oracle of `f` and every iteration count `k ≥ 1`: the probability numerator of reading `x`
+is `2·4^k ·` the squared reduced amplitudes of the class of `x` – a function of `n`, the number
+of solutions, `k` and of whether `f x` holds, and of nothing else. -/
+theorem probNum_grover (q : Quirks) (n nq ret : Nat) (og : List AGate) (f : BState → Bool)
+    (h : CleanXorOracle n nq ret og f) (k : Nat) (hk : 1 ≤ k) (x : BState) (hx : x.length = n) :
+    probNum (groverGates q n og nq ret k) (nq + 1) n x
+      = 2 * (2 ^ k) ^ 2 * (classOf f (riter (2 ^ n) (countBits n f) k RState.init) x).sq := by
+  have hinv := class_uniform_invariant n nq ret og f h k
+  have hc : repeatCopies q k = k := by unfold repeatCopies; rw [if_neg (by omega)]
+  obtain ⟨h1, h2, -⟩ := h
+  have e : nq + 1 - n = (nq - n) + 1 := by omega
+  unfold probNum groverGates
+  rw [allStates_sum, e, hc]
+  exact prob_uniform n (nq - n) (ret - n) f _ _ _ (by omega) hinv x hx
 
 end QV.Grover
